@@ -77,6 +77,18 @@ func jobsFor(id, tier string) []*Job {
 	}
 	_ = wmk
 	switch id {
+	case "C19":
+		var fp [][]int
+		for hh := 0; hh < 14; hh++ {
+			if thorough {
+				fp = append(fp, []int{hh, -1}) // every later program
+			} else {
+				fp = append(fp, []int{hh, 1}) // later program: the same one, `_`, Either.A or a plain raise
+			}
+		}
+		add(split(wmk("frame", "zzverifw.H_C19_frame", fp))...)
+		rtj := mk("runtest", "zzverifw.H_C19_runtest", nil)
+		add(&rtj)
 	case "C06":
 		var sp [][]int
 		for r := 0; r < 10; r++ {
@@ -254,6 +266,8 @@ func assumptionsFor(id string) []string {
 		"harness oracles written from the property statement and docs (DESIGN.md Appendix B)",
 	}
 	switch id {
+	case "C19":
+		return append(common, "inductive step: every value reachable from the shared constants environment (and the shared NotImplementedErr) is fingerprinted; one evaluation in a fresh enclosed scope must leave it unchanged, and a later program must print the same value / error / stack trace as before the history — by induction this covers histories of any length", "os.Open is served from harness-provided virtual files in the engine (real temporary files in the native replay); writes to stderr are no-op stubs", "symbol tables only grow and are excluded from the fingerprint (C20)")
 	case "C06":
 		return append(common, "fingerprint = deep structure of every live value (element / pair / bound identities by Go pointer, scalar payloads, key lists, prototype pointer), taken when the value is created and compared after every operation", "operations are called through Obj.callProp(receiver, name, argument); I/O and evaluation properties (p, puts, print, import, invite!, exit, assert*, eval, evalEnv, decJSON, S, repr, tap, try, then) are not operations on values and are skipped", "native Go slices inside the engine have the same 16-byte element size as []object.PanObject, so append growth and spare capacity are those of the real runtime")
 	case "C03":
@@ -293,6 +307,14 @@ func assumptionsFor(id string) []string {
 func boundsFor(id, tier string, jobs []*Job) map[string]interface{} {
 	b := map[string]interface{}{"tier": tier}
 	switch id {
+	case "C19":
+		b["program_family"] = "14 programs: value, raise, nested raise, the variable _, abstract Either props, NoPropErr, shadowing built-in names, failing chain, bear, try capturing _, raising defer, abandon, interpolation"
+		if tier == "thorough" {
+			b["pairs"] = "every (history program, later program) pair: 14 x 14, later program a solver choice"
+		} else {
+			b["pairs"] = "every history program x later program in {same program, _, Either.A, plain raise} (solver choice)"
+		}
+		b["runtest"] = "3 first files x 3 second files through the real setup + runTest"
 	case "C06":
 		b["pool"] = "10 live values: array built by a literal (spare capacity), str, object with nested array, map with array key, range, int, float, function, bear child, nested array"
 		b["single_step"] = "receiver: each pool value; property: EVERY name reachable from its prototype chain (solver choice); argument: none or one of 7 pool values (solver choice)"
@@ -397,6 +419,8 @@ func boundsFor(id, tier string, jobs []*Job) map[string]interface{} {
 
 func outsideFor(id string) []string {
 	switch id {
+	case "C19":
+		return []string{"programs outside the family", "the playground executor (web/wasm) and HTTP handlers (same Eval entry point, not driven separately)", "REPL line state (kept on purpose between lines)", "symbol interning tables (grow-only)", "stdin / stdout contents"}
 	case "C06":
 		return []string{"sequences longer than two operations", "properties with two or more arguments", "iterators (mutable by design)", "variables (reassignment is allowed)", "I/O and eval properties", "values reachable only through closures"}
 	case "C03":
